@@ -312,7 +312,8 @@ def rule_c13_r3(model: Model) -> RuleResult:
             r.ok()
         else:
             r.fail(f.qualname, f"returns {rets}", f.loc(), f"{fname} must require all of its bounds (Condition.all)")
-    for fname, want in (('shape', ('$shape == λ0.shape', True)), ('broadcastable', ('pane.util.is_broadcastable(λ0.shape, $shape)', True))):
+    # (the wanted shape is compared as a tuple: array shapes are tuples, and a shape given as a list never equals one)
+    for fname, want in (('shape', ('tuple($shape) == λ0.shape', True)), ('broadcastable', ('pane.util.is_broadcastable(λ0.shape, $shape)', True))):
         f = model.func(f'{ANN}.{fname}')
         cfg = cfg_of(model, f)
         nz = Normalizer(model, f, cfg, param_map=_pm(f))
@@ -324,7 +325,8 @@ def rule_c13_r3(model: Model) -> RuleResult:
                     if isinstance(c, ast.Call) and model.resolve(c.func, f.module, f) == f'{ANN}.Condition' and c.args:
                         got = _lambda_form(model, f, c.args[0], n, nz)
         r.sample({fname: got})
-        if got == want:
+        same = {want, (want[0].replace('λ0.shape', 'tuple(λ0.shape)'), want[1]), (want[0].replace(', $shape)', ', tuple($shape))'), want[1])}
+        if got in same:
             r.ok()
         else:
             r.fail(f.qualname, f"predicate {got}", f.loc(), f"{fname} must test {want[0]}")
